@@ -4,6 +4,10 @@ from common import *
 
 
 def main():
+    changed, terr = regenerate()
+    if terr:
+        print(terr)
+        return 1
     rc, out = sh("coq_makefile -f _CoqProject -o Makefile", cwd=COQ, timeout=120)
     if rc != 0:
         print(out)
